@@ -591,6 +591,12 @@ void BW_MidiSequencer::buildSmfSetupReset(size_t trackCount)
     m_currentPosition.wait = 0.0;
     m_currentPosition.track.clear();
     m_currentPosition.track.resize(trackCount);
+
+    // Nothing is playable until the time line has been rebuilt: the saved positions
+    // hold iterators into the track data that has just been dropped
+    m_trackBeginPosition = Position();
+    m_loopBeginPosition = Position();
+    m_atEnd = true;
 }
 
 bool BW_MidiSequencer::buildSmfTrackData(const std::vector<std::vector<uint8_t> > &trackData)
@@ -978,6 +984,8 @@ void BW_MidiSequencer::buildTimeLine(const std::vector<MidiEvent> &tempos,
     }
 
     m_fullSongTimeLength += m_postSongWaitDelay;
+    // The song is ready to play
+    m_atEnd = false;
     // Set begin of the music
     m_trackBeginPosition = m_currentPosition;
     // Initial loop position will begin at begin of track until passing of the loop point
